@@ -182,7 +182,7 @@ def setup_event(sc):
                           dyt=[[int(v) for v in row[i0:i1]] for row in (sc.get("dyarr") or [[sc["dy"]] * sc["imax"]] * sc["jmax"])[j0:j1]],
                           mask=[row[i0:i1] for row in M[j0:j1]]),
                 kill=sc["kill"], freeze=sc.get("freeze", []), killfarm=sc.get("killfarm", []), out=dict(ops=sc["ops"], numrec=sc["numrec"], sparse=sc["layout"] == "sparse", pvars=sc["pvars"],
-                         proto=list(os.path.splitext(sc.get("outname", "out.nc"))[0]), drop=list(sc.get("out_drop", []))),
+                         proto=list(os.path.splitext(sc.get("outname", "out.nc"))[0]), drop=list(sc.get("out_drop", [])), stamp=bool(sc.get("stampvar"))),
                 scal=dict(has=bool(sc["hasscal"]), N=int(sc["N"]),
                           frames=[((t - sc["start"]) // sc["dt"]) * (-1 if sc["rev"] else 1) for t in sc["ftimes"]],
                           fnum=[int(f) for f in (sc.get("frame_numbers") or range(len(sc["ftimes"])))]),      # number the field formula was given
@@ -190,11 +190,17 @@ def setup_event(sc):
                 **({"init": sc["warm"]["init"], "warmidx": sc["warm"]["idx"]} if sc.get("warm") else {}))
 
 
+def stamp_of(r):
+    """a time-typed per-row value carried as an INSTANCE variable (C06: 'all sets of instance and particle variables incl. time-typed ones')"""
+    return r["t"] + 3600 * r["id"]
+
+
 def write_release(sc, path):
+    st = bool(sc.get("stampvar"))
     with open(path, "w") as f:
-        f.write("mult release_time X Y Z farm src\n")
+        f.write("mult release_time X Y Z farm src" + (" stamp" if st else "") + "\n")
         for r in sc["rows"]:
-            f.write(f"{r['mult']} {iso(r['t'])} {r['xf']!r} {r['yf']!r} {r['zf']!r} {r['id']} {r['id']}\n")
+            f.write(f"{r['mult']} {iso(r['t'])} {r['xf']!r} {r['yf']!r} {r['zf']!r} {r['id']} {r['id']}" + (f" {iso(stamp_of(r))}" if st else "") + "\n")
 
 
 class _Plug:
@@ -222,6 +228,9 @@ def config(sc, work, plug=PLUG):
         out_iv["temp"] = dict(encoding=dict(datatype="f8"), attributes={})
     if sc.get("out_active"):        # the activity flag saved with the records (needed to restart a run with resting particles)
         out_iv["active"] = dict(encoding=dict(datatype="i1"), attributes={})
+    if sc.get("stampvar"):
+        iv["stamp"] = "time"
+        out_iv["stamp"] = dict(encoding=dict(datatype="f8"), attributes={})
     for v in sc.get("out_drop", []):          # state variables that are NOT written (the output holds exactly the configured ones)
         out_iv.pop(v)
     conf = dict(
@@ -311,7 +320,7 @@ def decode_files(work, sc, pattern=None):
     import numpy as np
     from netCDF4 import Dataset
     files = []
-    ivars = ["age", "farm"] + (["temp"] if sc["hasscal"] else []) + (["lon", "lat"] if sc.get("lonlat_out") else [])
+    ivars = ["age", "farm"] + (["temp"] if sc["hasscal"] else []) + (["lon", "lat"] if sc.get("lonlat_out") else []) + (["stamp"] if sc.get("stampvar") else [])
     for fn in output_files(work, sc, pattern):
         m = re.search(r"_(\d+)\.nc$", fn)
         with Dataset(fn) as d:
@@ -341,6 +350,9 @@ def decode_files(work, sc, pattern=None):
                             ghost += int(np.isfinite(np.delete(full, idx)).sum())
                     recs.append(_rec(tv[n], arr, slice(0, len(idx)), ivars))
                 ninst = sumc = sum(len(r["pid"]) for r in recs)
+            for r_ in recs:          # a time-typed instance variable is stored like the time coordinate: seconds since the reference time
+                if r_.get("stamp"):
+                    r_["stamp"] = [v + ref if v != NEG else NEG for v in r_["stamp"]]
             pv = {}
             if "release_time" in d.variables and "particle" in d.variables["release_time"].dimensions:
                 pv["release_time"], _ = _abs_time(d.variables["release_time"], d.variables["release_time"][:])
